@@ -48,6 +48,8 @@ def gen(seed, tier):
     if pl.get("entry") == "tree" and seed % 4 == 1:
         pl["rerun_after_return"] = True
     g = pl.get("gsc")
+    if g and g["kind"] == "fitness_eval_limit" and g.get("weights") in ("root", "equal") and seed % 2 == 1:
+        g["weights_as_str"] = True  # the documented plain-string form of the weighting strategy
     if g and g["kind"] == "fitness_eval_limit" and seed % 2 == 0:
         import random
 
